@@ -218,6 +218,14 @@ def _r6_join(run, st):
     # loop count of started workers: range(<parallel>) directly
     n_ok = _started_count_ok(st)
     if escaped or not joins:
+        # the list of started workers may have reached this function through a helper's return value under another name:
+        # a helper that joins every element of *some* list of the stage, on every normal path, is the join step
+        names_ = {x.id for x in ast.walk(f.node) if isinstance(x, ast.Name)}
+        any_join = {x.id for x, c, h in common.effect_sites(run.project, f, cfg, names_, "each:join")}
+        if any_join and not any(cfg.exit.id in cfg.reachable(s.id, avoid=any_join, skip_labels=("exc",)) for s in starts):
+            run.undecided("C03.R6", f, st.proc_call, "the workers are joined by a helper, but the list it is given cannot be traced back to the processes started here",
+                          kind="join-list-untraced", stage=st.name)
+            return
         run.violated("C03.R6", f, st.proc_call, "the stage can return without joining its workers",
                      kind="no-join", stage=st.name)
     elif appended and not join_all:
